@@ -174,9 +174,39 @@ func (cw *codeWorld) redeem(step int, ch *kernel.Chooser) string {
 	}
 	hadSuccess := ic.successes > 0
 	ic.attempts++
+	// environment faults on this one request: the response is lost on the way back (the client will retry), or one
+	// storage call of the request fails
+	env := ""
+	roll := ch.Int(12)
+	if !cw.faulty {
+		roll = 99 // fault-free configuration: relaxed oracles can hide nothing here
+	}
+	switch roll {
+	case 0:
+		env = "response-lost"
+		w.Net.Fault = func(ex *world.Exchange) string { return "drop-resp" }
+		cw.o.Fault("drop-resp")
+	case 1:
+		k := ch.Range(1, 9)
+		env = fmt.Sprintf("storage-error@%d", k)
+		fired := false
+		w.Store.Inject = func(n int, method string, rid int) string {
+			if n == k && !fired {
+				fired = true
+				cw.o.Fault(world.FaultError)
+				return world.FaultError
+			}
+			return ""
+		}
+	}
 	r := w.PostForm("/oauth/token", form, creds)
-	desc := fmt.Sprintf("redeem code of %s by %s devs=%v replay=%v -> %d", owner, presentedClient, devs, hadSuccess, r.Status)
-	return cw.evalRedeem(step, desc, ic, form, creds, presentedClient, len(devs) > 0, hadSuccess, r)
+	w.Net.Fault, w.Store.Inject = nil, nil
+	if env == "response-lost" && r.Ex != nil && r.Ex.Panic == "" {
+		// what the server did counts: judge its answer, not the client's error
+		r = &world.Resp{Status: r.Ex.Status, Body: r.Ex.RespBody, Ex: r.Ex}
+	}
+	desc := fmt.Sprintf("redeem code of %s by %s devs=%v replay=%v env=%q -> %d", owner, presentedClient, devs, hadSuccess, env, r.Status)
+	return cw.evalRedeem(step, desc, ic, form, creds, presentedClient, len(devs) > 0 || strings.HasPrefix(env, "storage"), hadSuccess, r)
 }
 
 // evalRedeem applies the C04 oracle to one answer of the token endpoint.
@@ -374,7 +404,7 @@ func RunC04(t *testing.T, spec kernel.Spec) *kernel.Outcome {
 			o.Infra = "world: " + err.Error()
 			return
 		}
-		cw := &codeWorld{w: w, o: o, prop: "C04"}
+		cw := &codeWorld{w: w, o: o, prop: "C04", faulty: tape.Sub("cfg2").Bool(1, 2)}
 		cw.browsers = []*world.Browser{w.Net.NewBrowser("b1"), w.Net.NewBrowser("b2")}
 		n := 30 + tape.Sub("cfg").Int(40)
 		clients := w.SortedClients()
